@@ -5,6 +5,7 @@ go 1.26.8
 require (
 	github.com/eclipse/paho.mqtt.golang v1.3.5
 	github.com/energomonitor/bisquitt v0.0.0
+	pgregory.net/rapid v1.3.0
 )
 
 require (
